@@ -207,6 +207,49 @@ def edited_after_export_programs():
             yield (f"edited-after-export/{name}/d{depth}", b)
 
 
+def extmodule_edit_programs():
+    """an ExternalModule whose public pin list is changed after a first use (append / remove / replace an entry / a new
+    list), and a second design wired for the OLD or for the NEW list: refused, or exported well-formed"""
+    import hdl21 as h
+
+    def mk(edit, wired_for, first_use):
+        def b():
+            E = h.ExternalModule(name="Evolving", port_list=[h.Inout(name="a"), h.Inout(name="b")], desc="", domain="c6e")
+            if first_use != "none":
+                f = h.Module(name="FirstUser")
+                f.x, f.y = h.Signal(), h.Signal()
+                f.u = E()(a=f.x, b=f.y)
+                if first_use == "export":
+                    h.to_proto(f)
+                elif first_use == "elaborate":
+                    h.elaborate(f)
+                else:
+                    list(E.ports)
+            if edit == "append":
+                E.port_list.append(h.Inout(name="c"))
+            elif edit == "remove":
+                E.port_list.pop()
+            elif edit == "widen":
+                E.port_list[1] = h.Inout(name="b", width=2)
+            elif edit == "rename":
+                E.port_list[1] = h.Inout(name="bb")
+            else:
+                E.port_list = [h.Inout(name="a"), h.Inout(name="b"), h.Inout(name="c")]
+            m = h.Module(name="SecondUser")
+            m.x, m.y, m.z = h.Signal(), h.Signal(), h.Signal()
+            m.w2 = h.Signal(width=2)
+            old = dict(a=m.x, b=m.y)
+            new = {"append": dict(a=m.x, b=m.y, c=m.z), "remove": dict(a=m.x), "widen": dict(a=m.x, b=m.w2),
+                   "rename": dict(a=m.x, bb=m.y), "new-list": dict(a=m.x, b=m.y, c=m.z)}[edit]
+            m.u = E()(**(old if wired_for == "old" else new))
+            return m
+        return b
+    for edit in ("append", "remove", "widen", "rename", "new-list"):
+        for wired_for in ("old", "new"):
+            for first_use in ("none", "ports-read", "elaborate", "export"):
+                yield (f"extmodule-edited/{edit}/wired-for-{wired_for}/first-use-{first_use}", mk(edit, wired_for, first_use))
+
+
 def faulted_programs():
     """the single-fault family of C02: a package, if one is returned at all, must still be well-formed"""
     from props import c02
@@ -351,11 +394,11 @@ def run(ctx):
     ctx.verify(c_export.names_engine(), c_export.VERIFY_NAMES)
     from props.c01 import concat_designs
     cases = itertools.chain(design_family(ctx.tier, ctx.seed), concat_designs(), extra_programs(), compiled_programs(), edited_programs(), edited_after_export_programs(), faulted_programs(),
-                            adversarial_programs(), param_programs())
+                            adversarial_programs(), param_programs(), extmodule_edit_programs())
     ctx.run_bounded("wf_package(to_proto(design))", cases, check_pkg,
                     rule=RULE + "; every concatenation of two or three pieces of one bus (C01's family, 285 designs); sample-PDK-compiled and walked designs holding two- and three-terminal passives of equal parameters (24); plus Series/MosStack/Wrapper over small parameter ranges; modules whose names were "
                          "re-used for another kind (16 pairs); modules edited after a first export (7 edits x 2 depths); the single-fault designs of C02 (a package returned for "
-                         "one of them must still be well-formed); the adversarially named designs of C05; instances with unset (None) parameters in param-classes, parameter dictionaries, ASAP7-compiled devices (15); generated modules whose parameter values are written with dots (8); refused moves of held objects on exported modules (10)",
+                         "one of them must still be well-formed); the adversarially named designs of C05; instances with unset (None) parameters in param-classes, parameter dictionaries, ASAP7-compiled devices (15); generated modules whose parameter values are written with dots (8); refused moves of held objects on exported modules (10); external modules whose pin list changes after a first use, second design wired for the old or the new list (40)",
                     bound="depth<=3, widths<=4 (8 thorough)", key_of=lambda c: c[0],
                     nontrivial=lambda c: nontrivial(c[0]))
     return INFO
@@ -366,7 +409,7 @@ def replay(payload):
     if want:
         for tier in ("quick", "thorough"):
             for desc, b in itertools.chain(design_family(tier, 0), extra_programs(), edited_programs(), edited_after_export_programs(), faulted_programs(),
-                            adversarial_programs(), param_programs()):
+                            adversarial_programs(), param_programs(), extmodule_edit_programs()):
                 if desc == want:
                     r = check_pkg((desc, b))
                     print("replay:", r)
